@@ -7,7 +7,7 @@ from typing import List, Set
 from ..callgraph import all_nodes
 from ..cfg import CFG
 from ..core import Ctx
-from ..flow import arg_of, call_name, get_flow
+from ..flow import arg_of, bound_args, call_name, get_flow
 from ..project import AnalysisError, ancestors, dotted, parent, root_name, src
 from .c03 import MUTATORS
 from .c08 import enclosing_tries, eval_sites, get_escapes, handler_tail_ok
@@ -118,7 +118,7 @@ def r1(ctx: Ctx) -> None:
     ef = proj.func('section_engine.evaluate_section_filter')
     efl = get_flow(proj, ef)
     for c in efl.calls('create_context'):
-        kw = {k.arg: k.value for k in c.keywords}
+        kw = bound_args(proj, ef, c)
         a = efl.atoms(kw['variables'], c) if 'variables' in kw else set()
         ok = 'param:global_vars' in a and 'transactions' in kw and src(kw['transactions']) == 'transactions'
         ctx.check(ok, 'C10.R1', ef, 'filter-context', 'filter context = this merchant\'s transactions + (globals + this view\'s locals)',
@@ -146,14 +146,21 @@ def r2_r5(ctx: Ctx) -> None:
     lp = loops[0]
     names = [e.id for e in lp.target.elts] if isinstance(lp.target, ast.Tuple) else []
     data = names[1] if len(names) == 2 else None
-    skips = [s for s in cfg.stmts() if isinstance(s, (ast.Continue, ast.Break)) and [a for a in ancestors(s) if isinstance(a, ast.For)][0] is lp]
-    if not skips:
+    # a merchant reaches the views (its group record is built) exactly when is_excluded_from_spending(its tags) is false: decided on the
+    # guards of the group-building statement, so `if excluded: continue` and `if not excluded: <build>` are the same to the rule
+    grp = [n for n in ast.walk(lp) if isinstance(n, ast.Dict) and any(isinstance(k, ast.Constant) and k.value == 'data' for k in n.keys)]
+    if not grp:
+        ctx.unknown('C10.R2', f, 'merchant group record ({... "data": ...}) not found in the merchant loop')
+    g = cfg.guard_literals_within(fl.stmt_of(grp[0]), lp)
+    excl = [(t, tr) for t, tr in g if t.startswith('is_excluded_from_spending(')]
+    if not excl:
         ctx.fail('C10.R2', f, 'skip:none', 'merchants tagged income/transfer/investment are not excluded from views', lp)
-    for s in skips:
-        g = cfg.guard_literals_within(s, lp)
-        ok = len(g) == 1 and all(tr and t.startswith('is_excluded_from_spending(') and f"{data}.get('tags'" in t for t, tr in g) and isinstance(s, ast.Continue)
+    else:
+        ok = len(g) == 1 and all((not tr) and f"{data}.get('tags'" in t for t, tr in excl)
         ctx.check(ok, 'C10.R2', f, 'skip', 'the only skip: is_excluded_from_spending(this merchant\'s tags)',
-                  f'merchant skipped under {sorted(g)}: view membership depends on something other than the filter and the special tags', s)
+                  f'merchant reaches the views under {sorted(g)}: view membership depends on something other than the filter and the special tags', fl.stmt_of(grp[0]))
+    for s in [s for s in cfg.stmts() if isinstance(s, ast.Break) and [a for a in ancestors(s) if isinstance(a, (ast.For, ast.While))][0] is lp]:
+        ctx.fail('C10.R2', f, 'skip:break', 'the merchant loop stops early: later merchants never reach the views', s)
     r = proj.resolve_name(f.module, 'is_excluded_from_spending')
     ctx.check(bool(r) and r[0] == 'func' and r[1].qualname.endswith('classification.is_excluded_from_spending'), 'C10.R2', f, 'skip:definition',
               'exclusion uses classification.is_excluded_from_spending (the definition C13 validates)', 'is_excluded_from_spending does not resolve to the classification module')
